@@ -683,6 +683,10 @@ def cases(tier, seed):
             for p in ('0', '0.5', '1'):
                 if N * t <= 4 or (thorough and N * t <= 6):
                     add('simple', ['gnp', N, p, t], mode='plain')
+    for p in ('nan', 'NaN', '-nan', 'inf', '-inf', '1e400', '1e-400', '+0.5', '.5e0'):
+        # everything float() accepts is a number for the parser
+        add('simple', ['gnp', 2, p], mode='plain')
+        add('bipartite', ['glrp', 2, 2, p], mode='plain')
     add('simple', ['gnp', 3], mode='plain')
     add('simple', ['gnp'], mode='plain')
     add('simple', ['gnp', 3, '0.5', 2, 1], mode='plain')
